@@ -28,7 +28,7 @@ func init() {
 	register("C09", &propDef{
 		Title: "A bundle survives being re-opened and archived",
 		Rules: []func(*Checker){ruleC09Fields, ruleC09Archive, ruleChecksum("C09.checksum"), ruleC06ManifestAs("C09.addrs"),
-			ruleRootSymmetric("C09.symmetric"), ruleLinkPrecise("C09.linkprecise"), ruleC09Answers, ruleLocalMemo("C09.localmemo"), ruleGuardOwnField("C09.metaguard"), ruleMetaVerbatim("C09.metaverbatim"), ruleExtractOnlyUnpacks("C09.extractonly"), aliasRule(ruleC01Sinks, "C01.sinks", "C09.entrypaths", 5), ruleIllegalSlugOnlyFromJudges("C09.judgesonly"), aliasRuleFiltered(ruleC01Guards, "C01.guards", "C09.nametest", 1, func(o Oblig) bool {
+			ruleRootSymmetric("C09.symmetric"), ruleLinkPrecise("C09.linkprecise"), ruleC09Answers, ruleLocalMemo("C09.localmemo"), ruleGuardOwnField("C09.metaguard"), ruleMetaVerbatim("C09.metaverbatim"), ruleExtractOnlyUnpacks("C09.extractonly"), aliasRule(ruleC01Sinks, "C01.sinks", "C09.entrypaths", 5), ruleIllegalSlugOnlyFromJudges("C09.judgesonly"), ruleRestoreChmodUnconditional("C09.chmodalways"), aliasRuleFiltered(ruleC01Guards, "C01.guards", "C09.nametest", 1, func(o Oblig) bool {
 				return strings.Contains(o.Key, "containment") || strings.Contains(o.Key, "success return")
 			}), aliasRuleFiltered(ruleC01Walk, "C01.walk", "C09.walked", 1, func(o Oblig) bool { return strings.Contains(o.Key, "below the destination") }), ruleRestore("C09.restore"), ruleMeta("C09.meta"), ruleC04Accept2("C09.links"), ruleEntryNameAsSpelled("C09.namekept"), ruleNameAgreement("C09.names", "sourcebundle"), aliasRule(ruleC02Omit, "C02.omit", "C09.omit", 3), ruleRefusalsOfPack("C09.packrefusals"), aliasRuleFiltered(ruleBuilderAbsDir("C10.absdir"), "C10.absdir", "C09.absdir", 1, func(o Oblig) bool { return strings.Contains(o.Key, "rootDir") }),
 			aliasRuleFiltered(ruleC02LinkTarget, "C02.linktarget", "C09.linktarget", 1, func(o Oblig) bool { return strings.Contains(o.Key, "Unpack") }),
